@@ -403,7 +403,7 @@ func (vc *VC) exec(fr *Frame, n *Node, instr ssa.Instruction) *Node {
 		mt := in.Type().Underlying().(*types.Map)
 		dom, _ := vc.mapMaps(mt)
 		n.assume(sEq(app("select", vc.cur(n.env, dom.Name), r), fmt.Sprintf("((as const (Array %s Bool)) false)", vc.srt.sortOf(mt.Key()))))
-		n.assume(sEq(app("select", vc.cur(n.env, vc.mapLen().Name), r), "0"))
+		n.assume(sEq(app("select", vc.cur(n.env, vc.mapLenOf(mt).Name), r), "0"))
 		fr.regs[in] = r
 	case *ssa.MakeChan:
 		fr.regs[in] = vc.newRef(n, "chan")
@@ -1175,15 +1175,21 @@ func (vc *VC) execTypeAssert(fr *Frame, n *Node, ta *ssa.TypeAssert) {
 
 // ---------------------------------------------------------------- maps
 
+func mapTag(srt *sorter, mt *types.Map) string {
+	return typeName(mt)
+}
+
 func (vc *VC) mapMaps(mt *types.Map) (dom, val *SVar) {
 	ks, vs := vc.srt.sortOf(mt.Key()), vc.srt.sortOf(mt.Elem())
-	tag := sortTag(ks) + "$" + sortTag(vs)
+	tag := mapTag(vc.srt, mt)
 	dom = vc.svar("MapDom$"+tag, "(Array Int (Array "+ks+" Bool))", nil)
 	val = vc.svar("MapVal$"+tag, "(Array Int (Array "+ks+" "+vs+"))", nil)
 	return
 }
 
-func (vc *VC) mapLen() *SVar { return vc.svar("MapLen", "(Array Int Int)", nil) }
+func (vc *VC) mapLenOf(mt *types.Map) *SVar {
+	return vc.svar("MapLen$"+mapTag(vc.srt, mt), "(Array Int Int)", nil)
+}
 
 func (vc *VC) execMapUpdate(fr *Frame, n *Node, mu *ssa.MapUpdate) {
 	m := vc.val(fr, mu.Map)
@@ -1194,10 +1200,10 @@ func (vc *VC) execMapUpdate(fr *Frame, n *Node, mu *ssa.MapUpdate) {
 	vc.safety(fr, n, "nilmap", sNot(sEq(m, "0")), mu.Pos())
 	vc.guardCheckMap(fr, n, mu.Map, true, mu.Pos())
 	od, ov := vc.cur(n.env, dom.Name), vc.cur(n.env, val.Name)
-	ol := vc.cur(n.env, vc.mapLen().Name)
+	ol := vc.cur(n.env, vc.mapLenOf(mt).Name)
 	nd := vc.bump(n.env, dom.Name)
 	nv := vc.bump(n.env, val.Name)
-	nl := vc.bump(n.env, vc.mapLen().Name)
+	nl := vc.bump(n.env, vc.mapLenOf(mt).Name)
 	n.assume(sEq(nd, app("store", od, m, app("store", app("select", od, m), k, "true"))))
 	n.assume(sEq(nv, app("store", ov, m, app("store", app("select", ov, m), k, v))))
 	n.assume(sEq(nl, app("store", ol, m, sIte(app("select", app("select", od, m), k), app("select", ol, m), app("+", app("select", ol, m), "1")))))
@@ -1241,7 +1247,7 @@ func (vc *VC) execNext(fr *Frame, n *Node, nx *ssa.Next) {
 			n.assume(sImp(okc, sAnd(sNot(sEq(m, "0")), app("select", app("select", vc.cur(n.env, dom.Name), m), k))))
 			n.assume(sImp(okc, sEq(v, app("select", app("select", vc.cur(n.env, val.Name), m), k))))
 			// an empty or nil map yields nothing
-			n.assume(sImp(sOr(sEq(m, "0"), sEq(app("select", vc.cur(n.env, vc.mapLen().Name), m), "0")), sNot(okc)))
+			n.assume(sImp(sOr(sEq(m, "0"), sEq(app("select", vc.cur(n.env, vc.mapLenOf(mt).Name), m), "0")), sNot(okc)))
 		}
 	}
 	n.assume(vc.valueFact(n.env, k, tup.At(1).Type()))
